@@ -390,7 +390,7 @@ class Check:
 
         # 4+5. correspondence and oracle
         fam_results = []
-        oracle_failures = []
+        oracle_failures = list(ctx.get("oracle_failures", []))   # pre-steps may contribute failing inputs (e.g. C09 diffs)
         evaluations = 0
         distinct = 0
         samples = []
@@ -490,7 +490,7 @@ class Check:
                 "partial_theorems": self.partial,
                 "evaluations": evaluations, "distinct_nontrivial": distinct,
                 "rule": " || ".join(rules),
-                "samples": samples[:12] if samples else ["(no sampled cases: proof-only run)"],
+                "samples": (samples[:12] + list(info.get("samples", []))[:12]) or ["(no sampled cases: proof-only run)"],
                 "exhaustive": bool(exhaustive),
                 "input_distribution": hist, "model_branch_tags": tags,
                 "correspondence": [{"family": fr["family"], "lines": fr.get("cmp", {}).get("lines"),
